@@ -32,59 +32,11 @@ class Services(object):
         self._wsgi = {}
         self._svc = {}
 
-    # ---- service definitions
-    def rich_service(self):
-        from spyne import rpc, ServiceBase, ComplexModel, Array, Unicode, XmlAttribute
-        from spyne.model.primitive import (Integer, Integer32, UnsignedInteger8, Decimal, Double, Boolean, DateTime, Date,
-                                           Time, Duration, Uuid, AnyDict, AnyXml, Mandatory)
-        from spyne.model.binary import ByteArray
-        from spyne.model.enum import Enum
-        calls = self.calls
-        Color = Enum('red', 'green', type_name='Color')
-
-        class Inner(ComplexModel):
-            __namespace__ = TNS
-            _type_info = [('a', Integer), ('s', Unicode)]
-
-        class SubInner(Inner):
-            __namespace__ = TNS
-            _type_info = [('z', Integer)]
-
-        class Outer(ComplexModel):
-            __namespace__ = TNS
-            _type_info = [('i', Integer32), ('d', Decimal), ('f', Double), ('b', Boolean), ('dt', DateTime), ('da', Date),
-                          ('t', Time), ('du', Duration), ('u', Uuid), ('ba', ByteArray), ('inner', Inner),
-                          ('arr', Array(Integer)), ('multi', Integer.customize(max_occurs=3)), ('e', Color),
-                          ('s', Unicode(max_len=10)), ('at', XmlAttribute(Integer)),
-                          ('minner', Inner.customize(max_occurs=2)), ('ainner', Array(Inner)),
-                          ('u8', UnsignedInteger8), ('pat', Unicode(pattern='[a-z]+')), ('hexb', ByteArray(encoding='hex')),
-                          ('m', Integer.customize(min_occurs=1, nillable=False))]
-
-        class S(ServiceBase):
-            @rpc(Outer, _returns=Unicode)
-            def f(ctx, o):
-                calls.append('f'); return 'ok'
-
-            @rpc(Integer, Unicode, DateTime, _returns=Unicode)
-            def g(ctx, i, s, dt):
-                calls.append('g'); return 'ok'
-
-            @rpc(_returns=Unicode)
-            def h(ctx):
-                calls.append('h'); return 'ok'
-
-            @rpc(AnyDict, AnyXml, Array(Unicode), _returns=Integer)
-            def k(ctx, d, x, l):
-                calls.append('k'); return 1
-        return S
-
     def service(self, which):
         if which not in self._svc:
-            if which == 'rich':
-                self._svc[which] = self.rich_service()
-            else:
-                import c10_universe
-                self._svc[which] = c10_universe.build_service(c10_universe.MODEL_DESC, self.calls)
+            import c10_universe
+            desc = c10_universe.RICH_DESC if which == 'rich' else c10_universe.MODEL_DESC
+            self._svc[which] = c10_universe.build_service(desc, self.calls)
         return self._svc[which]
 
     def app(self, which, proto, validator):
@@ -203,14 +155,16 @@ def drive_wsgi(sv, which, proto, validator, body, method='POST', ctype='', path=
         finally:
             if hasattr(it, 'close'):
                 it.close()
-        status = st[0][0] if st else None
-        code, fs = fault_of_response(proto, out)
-        if code is not None:
-            return Obs('fault', code=code, called=sv.calls, status=status, body=out, faultstring=fs)
-        return Obs('ok', called=sv.calls, status=status, body=out)
     except Exception as e:
         exc, site = crash_site(e)
         return Obs('crash', exc=exc, site=site, called=sv.calls, stage='wsgi', status=st[0][0] if st else None)
+    status = st[0][0] if st else None
+    if status is None:
+        return Obs('crash', exc='NoStartResponse', site='response', called=sv.calls, stage='response')
+    code, fs = fault_of_response(proto, out)       # raises if the answer is not a document of the protocol
+    if code is not None:
+        return Obs('fault', code=code, called=sv.calls, status=status, body=out, faultstring=fs)
+    return Obs('ok', called=sv.calls, status=status, body=out)
 
 
 def out_family(proto):
